@@ -37,6 +37,12 @@ CLAIMED = {
  "C08": ("smx", SMX,
          "Every history up to length 3/4 over 10 check outcome classes, 4 ping outcomes and end-of-wait inside the reboot wait, and restart (CUP on/off, plus a construction-failure configuration) runs on the real state machine with a clock that is never microsecond aligned; the reference (failures since last success; last contact only on answered checks / successful pings) is compared with the announcements and the next policy call, and after EVERY storage commit a fresh state machine is built on the surviving snapshot: it must present the values before or after the current step, never a mixture, and the values after once the step has finished.",
          "Crash = loss of exactly the uncommitted writes (atomic commit contract); histories longer than the bound not reached; 'failed check' = Err result.", "3/C08"),
+ "C09": ("smx", SMX,
+         "Histories of checks (incl. install + reboot wait), failed checks (transport, unparseable, forged body carrying cohorts), pings, end of wait and restarts with every subset of embedder presets run on the real state machine for app sets of 1-3 apps; responses name sub-lists/orders of the set incl. an unknown id with each cohort field present/empty/absent and daystart present/absent/without days; after every step the reference app table is compared with the next policy call, with the cohort fields and ping dates of every request sent, and with what a machine rebuilt (without presets) on the committed storage restores.",
+         "Step kinds exhaustive, field choices deviation-bounded (see evidence); duplicate app ids in one response not generated.", "3/C09"),
+ "C18": ("smx", SMX,
+         "Histories of install attempts (plan id, offered apps, per-app results, manifest version present or not), plan failures, idle iterations and restarts (on the target or another version; consistent clocks, wall clock behind until a later loop, monotonic clock racing ahead) run on the real state machine; the reference tracks first-seen per plan, consecutive failed installs and the durable reboot record; metrics are compared (attempt counts exactly, durations against clock windows), and after every clean install the storage surviving a crash at the first reboot question is rebuilt on the target version and must report exactly one waited-for-reboot metric.",
+         "Two apps, system app first; durations checked against windows of non-overlapping steps; a record overwritten while an older one is still pending is treated as unspecified.", "3/C18"),
 }
 
 PENDING_REASON = "check under construction in this round (design in DESIGN.md section 3); not claimed until its machinery is committed"
